@@ -20,6 +20,14 @@ def run(ctx):
     common.audit(ctx, 'Smtb/Proofs/BN254Prime.lean', ['Smtb.Pratt.bn254r_prime'])
     common.audit(ctx, 'Smtb/Properties/C08.lean', PACK)       # the hashed bit string IS the big-endian packing; packing injective
     common.audit(ctx, 'Smtb/Properties/C06.lean', UNIQUE)     # no alternative encoding v + k*r
+    # the property in one statement (public input = Keccak of the canonical packing mod r, and the batch
+    # relation), shifted hashes unsatisfiable, and the honest-hint reading (gnark's own hint values
+    # satisfy the circuit whenever anything does)
+    common.lake_build(['Smtb.Properties.C03EndToEnd'])
+    common.audit(ctx, 'Smtb/Properties/C03EndToEnd.lean', ['Smtb.Properties.C03EndToEnd.' + t for t in (
+        'insertion_end_to_end', 'deletion_end_to_end', 'insertion_public_input', 'deletion_public_input',
+        'insertion_shifted_hash_unsat', 'deletion_shifted_hash_unsat', 'insertion_sat_iff_honest', 'deletion_sat_iff_honest',
+        'insertion_spec_accepts_honest', 'deletion_spec_accepts_honest', 'toBinary_satisfiable_iff_fits', 'isZero_unique')])
     common.lake_build(['Smtb.Properties.TraceSound'])
     common.audit(ctx, 'Smtb/Properties/TraceSound.lean', ['Smtb.Properties.TraceSound.insertionCircuit_trace_iff_bn254', 'Smtb.Properties.TraceSound.deletionCircuit_trace_iff_bn254'])
     ctx.assumptions += [
@@ -59,7 +67,7 @@ def run(ctx):
     if found:
         cmd, args, mism = found
         i, line, code, model = mism[0]
-        replay = common.write_replay(ctx, 'corr', {'kind': 'corr', 'go_cmd': cmd, 'go_args': [str(a) for a in args], 'driver_args': ['corr', 'prove'],
+        replay = common.write_replay(ctx, 'corr', {'kind': 'corr', 'go_cmd': cmd, 'go_args': [str(a) for a in args], 'driver_args': ['corr', 'prove'], 'const': {'public-inputs': 'one'},
                                                   'index': i, 'case': line[:4000], 'code_says': code, 'spec_says': model, 'trace_mismatches': tmism[:2]})
         raise Violation(f'full circuit: compiled system says {code}, circuit theorem says {model} for case #{i}: {line[:300]}', replay)
     if tmism:
